@@ -352,6 +352,16 @@ def io_textgrid(draw, rich=True, tokens=True, max_tiers=4, clean=True, styles=("
                 k += 1
         used.add(name)
         tiers.append(draw(io_tier(style, name, lab, explicit_empty=explicit_empty, pool=pool, max_segments=5 if n < 10 else 2)))
+    if tokens and rich and draw(st.integers(0, 2)) == 0:
+        # the class words of the format inside the text of a tier of the *other* class
+        t = tiers[draw(st.integers(0, len(tiers) - 1))]
+        other = "IntervalTier" if t["type"] == "point" else "TextTier"
+        word = draw(st.sampled_from([f'"{other}"', other, f'class = "{other}"', f'x "{other}" y']))
+        if t["entries"]:
+            t["entries"][draw(st.integers(0, len(t["entries"]) - 1))][-1] = word
+        elif not unique_names or word not in used:
+            t["name"] = word
+            used.add(word)
     lo = 0.0 if draw(st.integers(0, 3)) > 0 else min(t["minT"] for t in tiers)
     if pool is not None and 0 < min(t["minT"] for t in tiers) <= 4e-14:
         lo = min(t["minT"] for t in tiers)
